@@ -6,7 +6,12 @@ VARIABLE l
 LinkSet(o) == SeqRange(o.links)
 Shared(o) == IF \E e \in LinkSet(o) : SharesNames(o.ref, e.L, e.T) THEN "shared-child-names" ELSE "other-names"
 Forms(o) == {e.form : e \in LinkSet(o)}
-SigOf(o) == <<o.t, IF o.cycle = 1 THEN "first-cycle" ELSE "second-cycle", Shared(o), Forms(o), o.out, o.exc>>
+Via(o) == IF o.inc THEN "include" ELSE "link"
+SigOf(o) == IF o.t = "refused_ref" THEN <<o.t, Via(o), o.state, o.out, o.exc>>
+            ELSE <<o.t, IF o.cycle = 1 THEN "first-cycle" ELSE "second-cycle", Shared(o), Forms(o), o.out, o.exc, Via(o)>>
+\* C06: assigning a reference that cannot be resolved raises and leaves everything (also which
+\* Sections are merged) as it was
+RefusedRefAtomic(o) == o.out = "raised" => (o.post = o.pre /\ o.merged_post = o.merged_pre)
 Say(tag, prop, clause, o) == PrintT(ToJson(<<tag, prop, clause, o.k, SigOf(o)>>))
 Chk(P, prop, clause, o) == IF P THEN TRUE ELSE Say("VIOL", prop, clause, o)
 Check(i) == LET o == Obs[i] IN
@@ -19,6 +24,8 @@ Check(i) == LET o == Obs[i] IN
       ELSE TRUE
    /\ Chk(o.t = "clean" => o.out = "ok", "C12", "CleanNeverFails", o)
    /\ Chk(o.t = "save" /\ Shared(o) = "other-names" => SavedPost(o), "C12", "SavedAfterClean", o)
+   /\ Chk(o.t = "refused_ref" => RefusedRefAtomic(o), "C06", "Atomic", o)
+   /\ (IF o.t = "refused_ref" /\ o.out = "ok" THEN Say("DIVERGENCE", "-", "-", o) ELSE TRUE)
    /\ Chk(WFStruct(o.pre) => WFStruct(o.post), "C03", "WF", o)
    /\ Chk(UniqueSiblings(o.pre) => UniqueSiblings(o.post), "C04", "UniqueSiblings", o)
 JInit == l = 1
